@@ -1453,6 +1453,10 @@ struct Exec {
         // senone scores of every frame, second pass over the buffered features the way the aligner does it; only
         // with compallsen: otherwise inactive entries hold stale values by construction
         acmod_t *am = s.d->acmod;
+        if (!am->compallsen && am->grow_feat) {
+            c18_scores_active_sets(s, opi);
+            return;
+        }
         if (!am->compallsen || !am->grow_feat)
             return;
         int total = am->output_frame;
@@ -1485,6 +1489,71 @@ struct Exec {
         while (am->output_frame < total)
             acmod_advance(am);
         out.probes["c18.frames_senone_checked"] += frames;
+    }
+
+    // Without compallsen only the REQUESTED senones are scored: a second pass over the buffered features in which each frame
+    // is scored for a small seeded set of senones, and (after moving on) scored once more, as a past frame, for another
+    // set - what a search that re-visits a frame does.  Every requested score is in range and the best of them is 0.
+    void c18_scores_active_sets(DecState &s, int opi)
+    {
+        acmod_t *am = s.d->acmod;
+        int total = am->output_frame;
+        if (total <= 0 || acmod_rewind(am) < 0)
+            return;
+        int nsen = bin_mdef_n_sen(am->mdef);
+        Rng pr(fnv1a(std::to_string(s.clip.size()) + "/sets/" + std::to_string(opi)));
+        int64_t frames = 0;
+        auto score_set = [&](int frame, const char *which) {
+            std::vector<int> req;
+            int k = 1 + (int)pr.below(6);
+            acmod_clear_active(am);
+            for (int q = 0; q < k; ++q) {
+                int sen = (int)pr.below((uint64_t)nsen);
+                acmod_activate_sen(am, sen);
+                req.push_back(sen);
+            }
+            int fi = frame;
+            const int16 *sc = acmod_score(am, &fi);
+            if (!sc)
+                return;
+            // what was actually scored: the decoder's own active list (deltas in 8 bits: a gap of more than 255 puts
+            // stepping-stone senones on the list, so it is a superset of what was asked for)
+            std::vector<int> scored;
+            for (int q = 0, last = 0; q < am->n_senone_active; ++q) {
+                last += am->senone_active[q];
+                scored.push_back(last);
+            }
+            for (int sen : req)
+                if (std::find(scored.begin(), scored.end(), sen) == scored.end())
+                    viol("C18", "senone_score_range", std::string("not_scored_") + which, "frame " + std::to_string(frame) + ": requested senone " + std::to_string(sen) + " is not on the active list", opi);
+            int mn = 32768, neg = 0;
+            for (int sen : scored) {
+                if (sc[sen] < 0)
+                    neg++;
+                mn = std::min<int>(mn, sc[sen]);
+            }
+            out.checks++;
+            if (neg)
+                viol("C18", "senone_score_range", std::string("negative_") + which, "frame " + std::to_string(frame) + ": " + std::to_string(neg) + " of the scored senones are negative (16-bit wrap)", opi);
+            else if (mn != 0)
+                viol("C18", "senone_score_range", std::string("best_not_zero_") + which, "frame " + std::to_string(frame) + ": best of the scored senones is " + std::to_string(mn) + ", not 0", opi);
+        };
+        while (am->output_frame < total) {
+            int f = am->output_frame;
+            if (f % 5 == 0 || f + 1 == total) {
+                score_set(f, "current");
+                acmod_advance(am);
+                score_set(f, "past");
+                frames++;
+            } else
+                acmod_advance(am);
+            if (!out.violations.empty())
+                break;
+        }
+        while (am->output_frame < total)
+            acmod_advance(am);
+        acmod_clear_active(am);
+        out.probes["c18.frames_scored_for_seeded_sets"] += frames;
     }
 
     // ---- ops
